@@ -461,8 +461,9 @@ template <class T> static void inplace_structured_case (vp::Ctx& c)
             break;
     }
 }
-// Measured on the unchanged tree (C09_MEASURE, 4e6 cases per element type), error / (eps * sum|terms|), same units as
-// above: see the table after the sub-check definitions.
+// Measured on the unchanged tree (C09_MEASURE, 1.6e6 cases per matrix element type, all parameter types), error /
+// (eps * sum|terms|), same units and bounds (k1, k2) as above: translate 1.48 (4x4) 1.28 (3x3); shear 1.36 / 0.96;
+// scale 0.50; rotate 0.73 (4x4), 0.96 (4x4, float angles on a double matrix), 0.56 (3x3 / 2x2)
 #define C09_STRUCT_RULE                                                                                                \
     "the 12 in-place operations on a STRUCTURED current matrix: one of 11 bases (identity, identity + 2^-k E_ij for every (i,j) incl. last row and column, unit lower / upper triangular, signed permutation, diagonal, affine without translation, near-identity linear block with a translation of 2^10..2^20, projective last column with last row (0..0 1), identity + one off-diagonal entry for every index pair, generic) with, in half of the cases, a per-entry mask over {keep 3/4, exact 0, exact 1, -1, generic}; entries from {0, +-1, small ints, nice, 2^[-4,4], up to 2^20}; parameters from {0, +-2^-k, +-1 +- 2^-k, +-1, up to 2^20, generic}, k = 4..digits+3; angles from {+-0, +-2^-k, j*pi/2 +- 2^-k and the neighbouring values of the type, generic}; parameter element type: same as the matrix (1/2), the other floating type (1/4), int, short (1/8 each); oracle and bounds as inplace_*; non-trivial = a 2^-k class, a masked matrix, a non-affine matrix or an angle beyond one period"
 #define C09_STRUCT_LABELS C09_MIXED_LABELS, C09_NEAR_LABELS
